@@ -16,6 +16,9 @@ void init();
 
 class HashKey
 {
+#ifdef CHESSPLUSPLUS_VERIF
+    friend struct VerifAccess;  // verification replay: load a counterexample state
+#endif
   public:
     HashKey();
 
